@@ -1203,3 +1203,132 @@ func (c *Check) derivedQueueOrder(rule string) {
 	}
 	c.Floor(rule, "whole-list copies of a voter queue into the relayer group", n, 1)
 }
+
+
+// exportedHashWindow (C18/R9): the loop that exports the bitcoin block hashes reads BlockHashes.Get(h) for
+// h = tip, tip-1, … and can reach h = 0: with the counter at the value that reads height 0 the loop guard still holds.
+func (c *Check) exportedHashWindow(rule string) {
+	p := c.p
+	eg := p.MustFn("x/bitcoin/module.ExportGenesis")
+	reach, _ := p.CG().Reach([]*ssa.Function{eg}, nil)
+	var site ssa.CallInstruction
+	var in *ssa.Function
+	n := 0
+	for f := range reach {
+		if p.isGenerated(f) || !isProdPkgFn(f) {
+			continue
+		}
+		for _, ci := range callsIn(f) {
+			if strings.HasPrefix(p.CallStr(ci), "BlockHashes.Get(") {
+				site, in = ci, f
+				n++
+			}
+		}
+	}
+	cons := "exported-hash-window @ " + FuncKey(eg)
+	if n != 1 {
+		c.Violated(rule, cons, p.Pos(eg.Pos()), fmt.Sprintf("%d reads of BlockHashes reachable from the export (expected one, in a loop) reason=not-established", n))
+		return
+	}
+	c.touch(in)
+	r := p.R(in)
+	var arg ssa.Value
+	for _, a := range site.Common().Args {
+		if !isContextType(a.Type()) {
+			arg = a
+		}
+	}
+	// the height read: counter + k
+	k := int64(0)
+	ctr, _ := arg.(*ssa.Phi)
+	if bo, ok := arg.(*ssa.BinOp); ok && (bo.Op == token.SUB || bo.Op == token.ADD) {
+		if cst, ok := bo.Y.(*ssa.Const); ok && cst.Value != nil {
+			if v, exact := constant.Int64Val(constant.ToInt(cst.Value)); exact {
+				k = v
+				if bo.Op == token.SUB {
+					k = -v
+				}
+				ctr, _ = bo.X.(*ssa.Phi)
+			}
+		}
+	}
+	if ctr == nil {
+		c.Violated(rule, cons, p.InstrPos(site), "the height read is not a loop counter (plus a constant): "+r.E(arg)+" reason=not-established")
+		return
+	}
+	var init ssa.Value
+	down := false
+	for _, e := range ctr.Edges {
+		if bo, ok := e.(*ssa.BinOp); ok && bo.Op == token.SUB && bo.X == ssa.Value(ctr) && isConstIntVal(bo.Y, 1) {
+			down = true
+			continue
+		}
+		if init != nil {
+			init = nil
+			break
+		}
+		init = e
+	}
+	if init == nil || !down {
+		c.Violated(rule, cons, p.InstrPos(site), "the counter does not descend by one from a single start value: "+r.E(ctr)+" reason=not-established")
+		return
+	}
+	// first height read = init + k must be the tip
+	first := r.E(init)
+	tipRe := `(?:BlockTip\.Peek\(\)#0|[^|{}]*\.BlockTip)`
+	okFirst := false
+	switch k {
+	case 0:
+		okFirst = regexp.MustCompile(`^` + tipRe + `$`).MatchString(first)
+	case -1:
+		okFirst = regexp.MustCompile(`^\(1 \+ ` + tipRe + `\)$`).MatchString(first)
+	}
+	if !okFirst {
+		c.Violated(rule, cons, p.InstrPos(site), fmt.Sprintf("the first height read is %s%+d, not the tip", first, k))
+		return
+	}
+	// the loop guard with the counter at the value that reads height 0
+	hdr := ctr.Block()
+	iff, _ := hdr.Instrs[len(hdr.Instrs)-1].(*ssa.If)
+	if iff == nil {
+		c.Violated(rule, cons, p.InstrPos(site), "no loop guard on the counter reason=not-established")
+		return
+	}
+	cond, neg := iff.Cond, false
+	for {
+		if u, ok := cond.(*ssa.UnOp); ok && u.Op == token.NOT {
+			cond, neg = u.X, !neg
+			continue
+		}
+		break
+	}
+	bo, ok := cond.(*ssa.BinOp)
+	if !ok {
+		c.Violated(rule, cons, p.InstrPos(site), "loop guard is not a comparison of the counter reason=not-established")
+		return
+	}
+	at0 := constant.MakeInt64(-k)
+	var lhs, rhs constant.Value
+	cv := func(v ssa.Value) constant.Value {
+		if v == ssa.Value(ctr) {
+			return at0
+		}
+		if cst, ok := v.(*ssa.Const); ok && cst.Value != nil {
+			return constant.ToInt(cst.Value)
+		}
+		return nil
+	}
+	lhs, rhs = cv(bo.X), cv(bo.Y)
+	if lhs == nil || rhs == nil || lhs.Kind() != constant.Int || rhs.Kind() != constant.Int {
+		c.Violated(rule, cons, p.InstrPos(site), "loop guard "+r.E(cond)+" is not a comparison of the counter with a constant reason=not-established")
+		return
+	}
+	holds := constant.Compare(lhs, bo.Op, rhs) != neg
+	// the body is the successor taken when the guard holds
+	bodyIsTrue := r.blockReach(hdr.Succs[0])[site.Block()] || hdr.Succs[0] == site.Block()
+	if holds != bodyIsTrue {
+		c.Violated(rule, cons, p.InstrPos(site), fmt.Sprintf("the loop stops before height 0: with the counter at %d (which reads height 0) the guard %s sends control out of the loop", -k, r.E(cond)))
+		return
+	}
+	c.Held(rule, cons, p.InstrPos(site), fmt.Sprintf("reads tip, tip-1, …; the guard %s still holds for the counter value %d that reads height 0", r.E(cond), -k))
+}
